@@ -365,6 +365,13 @@ func equalObject(left, right Object) bool {
 		return false
 	}
 
+	if leftSet, ok := left.(*BinarySet); ok {
+		// sets are equal when they hold the same members, in any order
+		rightSet, _ := right.(*BinarySet)
+
+		return len(leftSet.Value) == len(rightSet.Value) && leftSet.Contains(rightSet)
+	}
+
 	return reflect.DeepEqual(left, right)
 }
 
